@@ -355,6 +355,19 @@ def _run_tss(c):
     base = dt.datetime(2020, 1, 1, tzinfo=dt.timezone.utc)
     seq = [base + dt.timedelta(seconds=i) for i in range(3)]
     arg = list(seq) if c["arg"] == "list" else tuple(seq)
+    if c["read"] in ("append_empty", "append_more"):
+        # timestamp sequences given to append: copied like those given to Timing
+        import numpy as np
+        from nitypes.waveform import AnalogWaveform
+        first = [base - dt.timedelta(seconds=5)] if c["read"] == "append_more" else []
+        w = AnalogWaveform(len(first), timing=Timing.create_with_irregular_interval(list(first)))
+        w.append(np.zeros(3), arg)
+        if isinstance(arg, list):
+            arg[0] = base + dt.timedelta(days=9)
+            arg.append(base)
+            arg.reverse()
+        got = list(w.timing.get_timestamps(0, w.sample_count))
+        return {"observed": bool(got != first + seq or w.sample_count != len(first) + 3), "one_way": False}
     t = Timing.create_with_irregular_interval(arg)
     if isinstance(arg, list):
         arg[0] = base + dt.timedelta(days=9)
@@ -411,7 +424,7 @@ def to_coq(c, r):
 
 def sig(c, r):
     if c["k"] != "hist":
-        return "%s|%s|%s|%s|%s|%s" % (c["k"], c.get("cls"), c.get("arg"), c.get("flag"), c.get("f"), c.get("how")), True
+        return "%s|%s|%s|%s|%s|%s|%s" % (c["k"], c.get("cls"), c.get("arg"), c.get("flag"), c.get("f"), c.get("how"), c.get("read")), True
     ops = "".join(sorted({st["op"][0][0] + st["op"][0][1] for st in r.get("steps", [])}))
     out = r["res"].get("exc", "shares" if r["res"].get("ok") else "isolated")
     return "%s|%s|%s|%s|copy%d|cast%d|%s|%s" % (c["cls"], c["path"], c["kind"], "2d" if c["two_d"] else "1d", c["copy"], c["cast"], out, ops), True
@@ -419,7 +432,7 @@ def sig(c, r):
 
 def finding_key(c, r):
     if c["k"] != "hist":
-        return "%s|%s|%s|%s|%s" % (c["k"], c.get("cls"), c.get("arg"), c.get("f"), c.get("how"))
+        return "%s|%s|%s|%s|%s|%s" % (c["k"], c.get("cls"), c.get("arg"), c.get("f"), c.get("how"), c.get("read"))
     return "%s|%s|%s|copy%d|cast%d" % (c["cls"], c["path"], c["kind"], c["copy"], c["cast"])
 
 
@@ -442,7 +455,7 @@ def gen_cases(rng, tier):
             for flag in (None, True, False):
                 cases.append({"k": "props", "cls": cls, "arg": arg, "flag": flag})
     for arg in ("list", "tuple"):
-        for read in ("get", "prop"):
+        for read in ("get", "prop", "append_empty", "append_more"):
             cases.append({"k": "tss", "arg": arg, "read": read})
     for f in (["A", "1d"], ["A", "2d"], ["C", "1d"], ["C", "2d"], ["S", "1d"], ["S", "2d"], ["D", "lines"], ["D", "port"],
               ["D", "ports"], ["XY", "1d"]):
